@@ -56,7 +56,7 @@ def command_loop(local):
             elif "ping" in command:
                 STDOUT.write(DONE)
             elif "set" in command:
-                for k, v in command.set.items():
+                for k, v in from_data(command)["set"].items():  # Data.items() SKIPS null VALUES
                     context[k] = v
                 STDOUT.write(DONE)
             elif "get" in command:
